@@ -45,6 +45,7 @@ type Executor struct {
 	ConcatTerms   []*Term
 	loopEnv       func(st *State) *CEnv
 	GlobalFacts   []*Term
+	LoopErrors    []string
 	sentinels     []*Term
 	sentinelSeen  map[string]bool
 	TypeHolds     func(t types.Type) bool
@@ -62,6 +63,7 @@ type frame struct {
 	inLoop map[*ssa.BasicBlock]bool
 	iterPos map[ssa.Value]int
 	parent  *frame
+	names   map[string]cval
 	callee  *ssa.Function
 }
 
@@ -78,6 +80,12 @@ func (f *frame) clone() *frame {
 	n.inLoop = make(map[*ssa.BasicBlock]bool, len(f.inLoop))
 	for k, v := range f.inLoop {
 		n.inLoop[k] = v
+	}
+	if f.names != nil {
+		n.names = make(map[string]cval, len(f.names))
+		for k, v := range f.names {
+			n.names[k] = v
+		}
 	}
 	if f.iterPos != nil {
 		n.iterPos = make(map[ssa.Value]int, len(f.iterPos))
@@ -595,7 +603,7 @@ func (ex *Executor) Explore(fn *ssa.Function, st *State, args []Value, bind []Va
 		st.Note("no body: %s", fn.String())
 		return []callResult{{St: st, Ret: ex.havocResults(st, fn.Signature, fn.Name())}}
 	}
-	fr := &frame{fn: fn, regs: map[ssa.Value]Value{}, block: fn.Blocks[0], depth: depth, visits: map[*ssa.BasicBlock]int{}, bind: bind, inLoop: map[*ssa.BasicBlock]bool{}}
+	fr := &frame{fn: fn, regs: map[ssa.Value]Value{}, block: fn.Blocks[0], depth: depth, visits: map[*ssa.BasicBlock]int{}, bind: bind, inLoop: map[*ssa.BasicBlock]bool{}, names: map[string]cval{}}
 	for i, p := range fn.Params {
 		if i < len(args) {
 			fr.regs[p] = args[i]
@@ -629,6 +637,11 @@ func (ex *Executor) run(st *State, fr *frame, out *[]callResult) {
 		fr.idx++
 		switch x := ins.(type) {
 		case *ssa.DebugRef:
+			if fr.names != nil && !x.IsAddr {
+				if v, ok := x.Object().(*types.Var); ok {
+					fr.names[v.Name()] = cval{V: ex.get(st, fr, x.X), T: v.Type()}
+				}
+			}
 			continue
 		case *ssa.If:
 			c, ok := ex.get(st, fr, x.Cond).(*Term)
@@ -889,6 +902,9 @@ func defaultTypeHolds(t types.Type) bool {
 	n, ok := t.(*types.Named)
 	if !ok {
 		return false
+	}
+	if n.Obj().Pkg() != nil && n.Obj().Pkg().Path() == abPkg && n.Obj().Name() == "HTMLData" {
+		return true // the request-scoped data value is always an HTMLData
 	}
 	if _, isIface := t.Underlying().(*types.Interface); !isIface {
 		return false
